@@ -114,7 +114,10 @@ func VH_C05_Dispatch() {
 		security.VerifHook_Authenticator_ServerHandshakeWithMessage = nil
 	}()
 
-	base := &security.SecurityConfig{Authentication: security.SecurityOptional, Encryption: security.SecurityOptional, Integrity: security.SecurityOptional}
+	// the server-wide default policy: permissive, or demanding authentication (it
+	// governs every command the per-command function has no override for)
+	strictBase := vBool("strict_default_policy")
+	base := &security.SecurityConfig{Authentication: security.SecurityLevel(vIteStr(strictBase, "REQUIRED", "OPTIONAL")), Encryption: security.SecurityOptional, Integrity: security.SecurityOptional}
 	s := New(base)
 	s.SecurityConfigForCommand = func(cmd int) *security.SecurityConfig {
 		c := *base
@@ -181,6 +184,7 @@ func VH_C05_Dispatch() {
 			vAssert(c.hs == 1, "authenticated-handler-only-after-one-handshake")
 			vAssert(cmds[0] == commands.DC_AUTHENTICATE, "authenticated-path-starts-with-authenticate")
 			vAssert(vImplies(c.cmd == vhA1, c.authed), "authentication-required-command-on-authenticated-session")
+			vAssert(vImplies(vAnd(c.cmd == vhA0, strictBase), c.authed), "command-without-override-is-held-to-the-default-policy")
 			vAssert(vImplies(vOr(c.cmd == vhA2, c.cmd == vhA3), c.encrypted), "encryption-or-integrity-required-command-on-encrypted-session")
 			if withAuthorizer {
 				granted := false
